@@ -347,7 +347,7 @@ print(len(order), "functions of the block; helpers:", len(prim) + len(pre))
 
 # ------------------------------------------------------------------------------------------------ statement level
 STRUCT_ARGS = {"DefCol", "CreateTable"}
-UPS_STMT = ", upTN, upCT, upGC, upDC, upIC, upIx, upFK, upCI, upAO, upCS, upCR, upIH, upSt0"
+UPS_STMT = ", erTN, erCT, erGC, erDC, erIC, erIx, erFK, erCI, erAO, erCS, erCR, erIH, erSt0"
 SKIP_STMT = {"eachClosed", "pKwTable"}
 stmt_all = [d for d in parse_defs(rd("MsqModel/Parse/Stmt.lean")) if (typed(d) or d.alias) and d.name not in SKIP_STMT]
 entry_src = rd("MsqModel/Parse/Entry.lean")
@@ -420,12 +420,12 @@ for d in stmt_all + entry_defs:
     if d.alias is not None:
         tgt = d.alias.split()[0]
         if tgt == "pKwTable":
-            out += ["theorem %s_qe : ∀ x0 y0, QEL x0 y0 → QER (qeq upSt0) (%s x0) (%s y0) := by" % (d.name, d.name, d.name),
+            out += ["theorem %s_qe : ∀ x0 y0, QEL x0 y0 → QER (qeq erSt0) (%s x0) (%s y0) := by" % (d.name, d.name, d.name),
                     "  intro x0 y0 hr0", "  generalize h : %s x0 = res" % d.name, "  generalize h' : %s y0 = res'" % d.name,
                     "  unfold %s pKwTable at h h'" % d.name, "  " + CLOSE + GR]
         else:
-            out += ["theorem %s_qe : ∀ x0 y0, QEL x0 y0 → QER (qeq upIx) (%s x0) (%s y0) := by" % (d.name, d.name, d.name),
-                    "  intro x0 y0 hr0", "  unfold %s" % d.name, "  exact %s_qe _ _ x0 _ _ y0 rfl rfl hr0" % tgt]
+            out += ["theorem %s_qe : ∀ x0 y0, QEL x0 y0 → QER (qeq erIx) (%s x0) (%s y0) := by" % (d.name, d.name, d.name),
+                    "  intro x0 y0 hr0", "  unfold %s" % d.name, "  exact %s_qe _ _ x0 _ _ y0 rfl rfl (by decide) hr0" % tgt]
         out += ["grind_pattern %s_qe => %s x0, %s y0" % (d.name, d.name, d.name), ""]
         continue
     f = stmt_fn(d)
